@@ -757,7 +757,6 @@ func runC09(res *Result, tier string, seed int64, replay string) {
 
 func init() { register("C09", runC09) }
 
-
 // builtinDefault asks the real component for its built-in default of an attribute (GetDefaultAttribute on the first component
 // with that tag in the document's tree)
 func builtinDefault(src, tag, attr string) string {
@@ -796,7 +795,6 @@ func builtinDefault(src, tag, attr string) string {
 	}
 	return ""
 }
-
 
 // normColour: a three-digit hex colour as the renderer writes it (six digits)
 func normColour(v string) string {
@@ -868,7 +866,6 @@ func parentLoaded(base *Node, tag string) *Node {
 	}
 	return d
 }
-
 
 // lowerValues: every attribute value written in the document's head (mj-all, tag defaults, classes) or on the parent component
 // of `tag` — the values of lower-priority sources in this context
